@@ -161,3 +161,9 @@ Example C10_time_of_day_examples :
   TimeRender.seconds_text 0 5000 = [48; 48; 46; 48; 48; 53]%N /\ TimeRender.seconds_text 7 0 = [48; 55; 46; 48; 48]%N /\
   TimeRender.read_back 12 0 0 5000 = Some (12, 0, 0, 5000000)%N.
 Proof. vm_compute. repeat split; reflexivity. Qed.
+
+(* Dates (DATE# and the date part of DATE_AND_TIME#): year as four digits, month and day as two, each read back by integer():
+   every date the literal model accepts is read back from its rendering as that date. *)
+Theorem C10_date_round_trip : forall y m d : N, Literals.date_literal y m d = Some (y, m, d) ->
+  TimeRender.date_read_back y m d = Some (y, m, d).
+Proof. exact TimeRenderProofs.date_round_trip. Qed.
